@@ -28,6 +28,7 @@ type enumScen struct {
 	RootErr bool     `json:"rootErr"`
 	Pos     string   `json:"pos"`
 	EnumOn  bool     `json:"enumOn"`
+	Excl    string   `json:"excl"`
 	OK      bool     `json:"ok"`
 	Inputs  []int    `json:"inputs"`
 }
@@ -112,7 +113,13 @@ func cmdEnum(args []string) {
 		if s.Unknown != "" {
 			src.WriteString("// goverter:enum:unknown " + s.Unknown + "\n")
 		}
-		if !s.EnumOn {
+		switch {
+		case s.Excl == "self":
+			fmt.Fprintf(&src, "// goverter:enum:exclude %s/%s:E\n// goverter:enum:exclude %s/%s:E\n", b.Mod, sp, b.Mod, tp)
+		case s.Excl == "other":
+			// a type of the same name in another package, and another name in the packages of the pair
+			fmt.Fprintf(&src, "// goverter:enum:exclude %s/zz:E\n// goverter:enum:exclude %s/%s:Other\n// goverter:enum:exclude %s/%s:Other\n", b.Mod, b.Mod, sp, b.Mod, tp)
+		case !s.EnumOn:
 			src.WriteString("// goverter:enum no\n")
 		}
 		fmt.Fprintf(&src, "// goverter:output:file ../gen/c%d.go\n// goverter:output:package %s/gen\ntype C%d interface {\n", i, b.Mod, i)
